@@ -1023,7 +1023,7 @@ class Authenticated(BaseClientHandler):
                 case StatusAtt.MESSAGES:
                     result.append(f"MESSAGES {mbox.num_msgs}")
                 case StatusAtt.RECENT:
-                    result.append(f"RECENT {mbox.num_recent}")
+                    result.append(f"RECENT {len(mbox.sequences['Recent'])}")
                 case StatusAtt.UIDNEXT:
                     result.append(f"UIDNEXT {mbox.next_uid}")
                 case StatusAtt.UIDVALIDITY:
@@ -1215,7 +1215,7 @@ class Authenticated(BaseClientHandler):
                     case StatusAtt.MESSAGES:
                         result.append(f"MESSAGES {mbox.num_msgs}")
                     case StatusAtt.RECENT:
-                        result.append(f"RECENT {mbox.num_recent}")
+                        result.append(f"RECENT {len(mbox.sequences['Recent'])}")
                     case StatusAtt.UIDNEXT:
                         result.append(f"UIDNEXT {mbox.next_uid}")
                     case StatusAtt.UIDVALIDITY:
